@@ -181,7 +181,8 @@ def fn_eval(name, x, cfg, NFFT):
     if name == 'arma2psd':
         if cfg.get('pairs'):
             cfg = dict(cfg, A=[complex(a, b) for a, b in cfg['A']], B=[complex(a, b) for a, b in cfg['B']])
-        return np.asarray(arma2psd(A=np.array(cfg['A']), B=np.array(cfg['B']), rho=cfg['rho'], T=cfg['T'], NFFT=NFFT))
+        kw = {} if cfg.get('sides') in (None, 'omitted') else {'sides': cfg['sides']}
+        return np.asarray(arma2psd(A=np.array(cfg['A']), B=np.array(cfg['B']), rho=cfg['rho'], T=cfg['T'], NFFT=NFFT, **kw))
     if name == 'minvar':
         return np.asarray(minvar(x, cfg['order'], NFFT=NFFT)[0])
     if name == 'pmtm':
@@ -193,6 +194,9 @@ def fn_eval(name, x, cfg, NFFT):
 def check_fn(name, x, cfg, NFFT, c):
     s0 = fn_eval(name, x, cfg, NFFT); s1 = fn_eval(name, x, cfg, c * NFFT)
     idx = c * np.arange(s0.shape[-1])
+    if cfg.get('sides') == 'centerdc':
+        # the centred layout: entry j of an n-point grid is bin j - n//2 (negative frequencies first, DC at n//2)
+        n = s0.shape[-1]; idx = c * (np.arange(n) - n // 2) + (c * n) // 2
     if np.any(idx >= s1.shape[-1]):
         return 'the fine grid has no entry for a coarse entry'
     a = s1[..., idx]
@@ -375,7 +379,8 @@ def run(ctx):
             pa = int(rng.integers(0, 6)); pb = int(rng.integers(0, 6))
             A = (rng.integers(-8, 9, size=pa) + (1j * rng.integers(-8, 9, size=pa) if cplx else 0)) / 16.0
             B = (rng.integers(-8, 9, size=pb) + (1j * rng.integers(-8, 9, size=pb) if cplx else 0)) / 16.0
-            cfg = {'A': [complex(t) for t in A], 'B': [complex(t) for t in B], 'rho': float(rng.integers(1, 9)) / 4, 'T': float(rng.choice([1.0, 0.5, 8.0]))}
+            cfg = {'A': [complex(t) for t in A], 'B': [complex(t) for t in B], 'rho': float(rng.integers(1, 9)) / 4, 'T': float(rng.choice([1.0, 0.5, 8.0])),
+                   'sides': ['omitted', 'default', 'centerdc', 'centerdc'][(it // len(FN)) % 4]}
             NFFT = int(rng.integers(max(pa, pb) + 1, max(pa, pb) + 12))
         elif name == 'minvar':
             m = int(rng.integers(2, min(N // 4, 8) + 1)); cfg = {'order': m}; NFFT = max(NFFT, 2 * m) if rng.integers(0, 3) else 2 * m + int(rng.integers(0, 2))
@@ -391,7 +396,7 @@ def run(ctx):
         rep = {'form': 'function', 'estimator': name, 'cfg': cfg if name != 'arma2psd' else None, 'NFFT': NFFT, 'c': c,
                'x': vlib.hexv(np.asarray(x, dtype=complex)), 'datatype': tag}
         if name == 'arma2psd':
-            rep['cfg'] = {'A': [[t.real, t.imag] for t in cfg['A']], 'B': [[t.real, t.imag] for t in cfg['B']], 'rho': cfg['rho'], 'T': cfg['T'], 'pairs': True}
+            rep['cfg'] = {'A': [[t.real, t.imag] for t in cfg['A']], 'B': [[t.real, t.imag] for t in cfg['B']], 'rho': cfg['rho'], 'T': cfg['T'], 'pairs': True, 'sides': cfg['sides']}
         try:
             what = check_fn(name, x, cfg, NFFT, c)
         except Exception as e:
